@@ -402,7 +402,7 @@ def clause_g(rep, F, rule="fetch-yields-a-token"):
             continue
         n += 1
         pb = {bb for bb, t, ck, fr in f.calls() if pushing(ck)}
-        esc = cfg.flag_reach(f, 0, cfg.return_blocks(f), avoid=pb | cfg.err_sink_blocks(f)) if pb else [0]
+        esc = (None if 0 in pb else cfg.flag_reach(f, 0, cfg.return_blocks(f), avoid=pb | cfg.err_sink_blocks(f))) if pb else [0]
         rep.check(esc is None, rule, short(fk), "%s can return Ok without having queued a token: what it consumed leaves no trace for the parser, whose rejections "
                   "(directive without '---', directive after an open document, missing separators) hang on the token kinds" % f.name, site=f.span,
                   detail={"escaping_path": esc})
